@@ -263,7 +263,9 @@ def tryMatchState (prog : Prog) (inp : Input) (look : Runner) :
       | .wordBoundaryUnicodeICase invert => wordBoundaryArm inp isWordCharUnicodeIcase invert s steps peak
 
 /-- The `while !self.states.is_empty()` loop of `MatchAttempter::try_at_pos`.
-`limit` = tick budget; the first `Nat` is the structural fuel (`≥ limit - steps` suffices). -/
+`limit` = tick budget; the first `Nat` is the structural fuel (`≥ limit - steps + 1` suffices: one
+more than the remaining budget, because the final, failing evaluation of the loop condition is an
+iteration of this function but not a tick). -/
 def runStates (prog : Prog) (inp : Input) (limit : Nat) :
     Nat → Array State → (fwd : Bool) → (steps peak : Nat) → Outcome
   | 0, _, _, _, _ => .outOfFuel
@@ -291,7 +293,7 @@ def runStates (prog : Prog) (inp : Input) (limit : Nat) :
 /-- `MatchAttempter::new(re).try_at_pos(input, &mut init_state, dir)` with a tick budget of `fuel`:
 `matched` carries the new value of `*init_state`; on failure `*init_state` is unchanged. -/
 def tryAtPos (prog : Prog) (inp : Input) (fuel : Nat) (init : State) (fwd : Bool) : Outcome :=
-  runStates prog inp fuel fuel #[init] fwd 0 0
+  runStates prog inp fuel (fuel + 1) #[init] fwd 0 0
 
 /-- The initial state built by `next_match` / `verif_attempt`; `entry` is the argument of
 `LoopData::new` (`next_match`: the position it was called with). -/
